@@ -70,14 +70,17 @@ type PodV struct {
 }
 
 type Op struct {
-	Kind  string // SetNode DelNode SetClaim DelClaim SetPod DelPod DeliverNode DeliverClaim DeliverPod Mark Unmark Obs
-	Node  *NodeV
-	Claim *ClaimV
-	Pod   *PodV
-	Name  string
-	IDs   []string
-	Obs   *state.VerifC11Dump
-	Tag   string // for Obs: which point of the history
+	Kind   string // SetNode DelNode SetClaim DelClaim SetPod DelPod DeliverNode DeliverClaim DeliverPod Mark Unmark Obs
+	Node   *NodeV
+	Claim  *ClaimV
+	Pod    *PodV
+	Name   string
+	IDs    []string
+	Obs    *state.VerifC11Dump
+	NSets  map[string][3][]string // NodePoolState at the observation
+	NMap   map[string]string
+	Belief bool
+	Tag    string // for Obs: which point of the history
 }
 
 // ---- the real system ----
